@@ -79,6 +79,26 @@ def mappingOk (m : Mapping) : Bool :=
 def Accepted (c : Config) : Bool :=
   c.maps.all mappingOk ∧ c.defMap < c.maps.length ∧ 1 ≤ c.defCh ∧ c.defCh ≤ 16 ∧ 1 ≤ c.vel ∧ c.vel ≤ 127
 
+/-- is the axis event inside the quantifier: known axis with `min ≤ 0 < max`, value in range,
+    `deadzone_at_center` only with `min = 0`, deadzone in [0, 1) -/
+def axisOK (mn mx : Int) (dzc : Bool) (dz : Rat) (raw : Int) : Bool :=
+  mn ≤ 0 ∧ 0 < mx ∧ mn ≤ raw ∧ raw ≤ mx ∧ (dzc → mn = 0) ∧ 0 ≤ dz ∧ dz < 1
+
+/-- an event inside C05's quantifier: every key event; axis positions within the reported range -/
+def evInRange (cfg : Config) (s : StObs) : Ev → Bool
+  | .abs sub node code raw =>
+    match cfg.maps[s.map]? with
+    | none => false
+    | some m =>
+      match alookup (sub, code) m.analog with
+      | none => true
+      | some a =>
+        let (mn, mx) := (alookup (node, code) cfg.axes).getD (0, 0)
+        match m.deadzone sub code with
+        | none => false
+        | some dz => axisOK mn mx a.dzCenter dz raw
+  | _ => true
+
 /-! ### bookkeeping derived from the events -/
 
 structure Book where
@@ -222,22 +242,20 @@ def expectKey (cfg : Config) (b : Book) (sub : Sub) (code : Code) (val : Int) : 
         let pinned' := aerase code b.pinned
         (⟨some outs, keepSt s, some pinned'.length, false, true, some (noteOffMsg ch n)⟩, { b with pinned := pinned' })
 
-/-- does the configuration contain an axis that emulates keys or actions in any mapping -/
-def hasKeyOrActionAxes (cfg : Config) : Bool :=
-  cfg.maps.any (fun m => m.analog.any (fun p => p.2.kind = .key ∨ p.2.kind = .action))
-
-def expectStep (cfg : Config) (b : Book) : Ev → Expect × Book
+/-- `held`: number of keys emulated by axes that are held after the step, as determined by the axis
+    specification (`Hidi.SpecAxis`), `none` when unknown; `actionAxis`: the step is an event of an axis
+    that emulates actions (outside C01–C04) -/
+def expectStep (cfg : Config) (b : Book) (actionAxis : Bool) : Ev → Expect × Book
   | .key sub code val =>
     if val = 2 then (⟨some [], keepSt b.pre, some b.pinned.length, false, true, none⟩, b)
     else expectKey cfg b sub code val
   | .syn => (⟨some [], keepSt b.pre, some b.pinned.length, false, true, none⟩, b)
   | .midiIn _ _ _ => (⟨some [], keepSt b.pre, some b.pinned.length, false, true, none⟩, b)
   | .abs _ _ _ _ =>
-    -- axes are specified by C06–C08; here only: they do not disturb the key bookkeeping
-    -- (axis-driven actions and key emulation are excluded from C01–C04 by `ok`)
-    (⟨none, (if hasKeyOrActionAxes cfg then none else keepSt b.pre),
-      (if hasKeyOrActionAxes cfg then none else some b.pinned.length), false, true, none⟩,
-     { b with ok := b.ok && !hasKeyOrActionAxes cfg })
+    -- axes are specified by C06–C08 (Hidi.SpecAxis); here only: they do not disturb the key
+    -- bookkeeping (axis-driven actions are excluded from C01–C04 by `ok`)
+    (⟨none, (if actionAxis then none else keepSt b.pre), some b.pinned.length, false, true, none⟩,
+     { b with ok := b.ok && !actionAxis })
 
 /-! ### the monitors -/
 
@@ -262,8 +280,9 @@ def actionOf (cfg : Config) : Ev → Option Action
   | _ => none
 
 /-- all clause failures of one step -/
-def checkStep (cfg : Config) (idx : Nat) (b : Book) (st : Step) : List Fail × Book :=
-  let (e, b') := expectStep cfg b st.ev
+def checkStep (cfg : Config) (idx : Nat) (b : Book) (st : Step) (held : Option Nat := some 0)
+    (actionAxis : Bool := false) : List Fail × Book :=
+  let (e, b') := expectStep cfg b actionAxis st.ev
   let okBefore := b.ok
   let ok := b'.ok
   let acc := Accepted cfg
@@ -274,7 +293,7 @@ def checkStep (cfg : Config) (idx : Nat) (b : Book) (st : Step) : List Fail × B
   let fails := if e.swallowed ∧ (st.outs ≠ [.sig] ∨ stateKeyOf st.st ≠ stateKeyOf b.pre ∨ st.st.notes ≠ b.pre.notes) then
       fails ++ [⟨"C14", idx, "completing-press-not-swallowed"⟩] else fails
   -- C05: every message is well-formed
-  let fails := if acc ∧ ¬ st.outs.all wellFormed then fails ++ [⟨"C05", idx, "malformed-message"⟩] else fails
+  let fails := if acc ∧ evInRange cfg b.pre st.ev ∧ ¬ st.outs.all wellFormed then fails ++ [⟨"C05", idx, "malformed-message"⟩] else fails
   -- C02(b): state actions are silent
   let fails := if (stateActionOf cfg st.ev).isSome ∧ st.outs.any isMidi then
       fails ++ [⟨"C02", idx, "state-action-emitted-midi"⟩] else fails
@@ -306,12 +325,12 @@ def checkStep (cfg : Config) (idx : Nat) (b : Book) (st : Step) : List Fail × B
        | some s => if stateKeyOf st.st ≠ s then fails ++ [⟨"C04", idx, "state-evolution"⟩] else fails
        | none => fails) else fails
   let fails := if ok ∧ acc then
-      (match e.notes with
-       | some n => if st.st.notes ≠ n then fails ++ [⟨"C04", idx, "held-note-count"⟩] else fails
-       | none => fails) else fails
+      (match e.notes, held with
+       | some n, some h => if st.st.notes ≠ n + h then fails ++ [⟨"C04", idx, "held-note-count"⟩] else fails
+       | _, _ => fails) else fails
   -- C01(a): nothing sounds when nothing is held
   let snd := sounding b.snd st.outs
-  let fails := if ok ∧ acc ∧ b'.down = [] ∧ snd ≠ [] then fails ++ [⟨"C01", idx, "sounding-at-quiescence"⟩] else fails
+  let fails := if ok ∧ acc ∧ b'.down = [] ∧ held = some 0 ∧ snd ≠ [] then fails ++ [⟨"C01", idx, "sounding-at-quiescence"⟩] else fails
   let _ := okBefore
   -- nothing is claimed for configurations the parser rejects, nor after an observed crash
   let fails := if acc ∧ ¬ b.dead ∧ ¬ st.outs.contains .panic then fails else []
@@ -335,11 +354,12 @@ def classTok : Out → String
   | .panic => "PANIC"
 
 /-- per-property observations of one step -/
-def obsStep (cfg : Config) (b : Book) (st : Step) : List (String × String) :=
-  let (e, b') := expectStep cfg b st.ev
+def obsStep (cfg : Config) (b : Book) (st : Step) (held : Option Nat := some 0) (actionAxis : Bool := false) :
+    List (String × String) :=
+  let (e, b') := expectStep cfg b actionAxis st.ev
   let snd := sounding b.snd st.outs
   let o : List (String × String) := []
-  let o := if b'.down = [] then o ++ [("C01", sndStr snd)] else o
+  let o := if b'.down = [] ∧ held = some 0 then o ++ [("C01", sndStr snd)] else o
   let o := if (stateActionOf cfg st.ev).isSome then o ++ [("C02", outsStr (st.outs.filter isMidi))] else o
   let o := match st.ev with
     | .key _ _ 0 =>
@@ -360,16 +380,17 @@ def obsStep (cfg : Config) (b : Book) (st : Step) : List (String × String) :=
   let o := if e.swallowed ∨ sigCount st.outs > 0 then o ++ [("C14", outsStr st.outs ++ "|" ++ stStr st.st)] else o
   o
 
-def observeSteps (cfg : Config) : Book → List Step → List (String × String) × Book
-  | b, [] => ([], b)
-  | b, s :: r =>
-    let o := obsStep cfg b s
-    let (_, b') := checkStep cfg 0 b s
-    let (os, b'') := observeSteps cfg b' r
+def observeSteps (cfg : Config) : Book → List Step → List (Option Nat × Bool) → List (String × String) × Book
+  | b, [], _ => ([], b)
+  | b, s :: r, infos =>
+    let (held, aa) := infos.headD (some 0, false)
+    let o := obsStep cfg b s held aa
+    let (_, b') := checkStep cfg 0 b s held aa
+    let (os, b'') := observeSteps cfg b' r infos.tail
     (o ++ os, b'')
 
-def observe (t : Trace) : List (String × String) :=
-  let (os, b) := observeSteps t.cfg (Book.init t.init) t.steps
+def observe (t : Trace) (infos : List (Option Nat × Bool) := []) : List (String × String) :=
+  let (os, b) := observeSteps t.cfg (Book.init t.init) t.steps infos
   let oc : List (String × String) :=
     match t.cleanup with
     | none => []
@@ -378,25 +399,28 @@ def observe (t : Trace) : List (String × String) :=
 
 def obsOf (p : String) (os : List (String × String)) : List String := (os.filter (·.1 = p)).map (·.2)
 
-def checkSteps (cfg : Config) : Nat → Book → List Step → List Fail × Book
-  | _, b, [] => ([], b)
-  | i, b, s :: r =>
-    let (f, b') := checkStep cfg i b s
-    let (fs, b'') := checkSteps cfg (i + 1) b' r
+def checkSteps (cfg : Config) : Nat → Book → List Step → List (Option Nat × Bool) → List Fail × Book
+  | _, b, [], _ => ([], b)
+  | i, b, s :: r, infos =>
+    let (held, aa) := infos.headD (some 0, false)
+    let (f, b') := checkStep cfg i b s held aa
+    let (fs, b'') := checkSteps cfg (i + 1) b' r infos.tail
     (f ++ fs, b'')
 
 def initExpected (cfg : Config) : StObs := ⟨cfg.defOct, cfg.defSemi, u8 (cfg.defCh - 1), cfg.defMap, 0⟩
 
-def checkTrace (t : Trace) : List Fail :=
+/-- `infos`: per step, what the axis specification knows (held emulated keys, action axis?);
+    the empty list means "no axes" -/
+def checkTrace (t : Trace) (infos : List (Option Nat × Bool) := []) : List Fail :=
   let acc := Accepted t.cfg
   let f0 : List Fail :=
     if acc ∧ t.init ≠ initExpected t.cfg then [⟨"C04", 0, "initial-state"⟩] else []
-  let (fs, b) := checkSteps t.cfg 0 (Book.init t.init) t.steps
+  let (fs, b) := checkSteps t.cfg 0 (Book.init t.init) t.steps infos
   let fc : List Fail :=
     match t.cleanup with
     | none => []
     | some o =>
-      (if acc ∧ ¬ o.all wellFormed then [⟨"C05", t.steps.length, "malformed-message"⟩] else []) ++
+      (if acc ∧ ¬ b.dead ∧ ¬ o.all wellFormed then [⟨"C05", t.steps.length, "malformed-message"⟩] else []) ++
       (if acc ∧ b.ok ∧ ¬ b.dead ∧ sounding b.snd o ≠ [] then [⟨"C01", t.steps.length, "sounding-after-disconnect"⟩] else [])
   f0 ++ fs ++ fc
 
